@@ -671,20 +671,21 @@ theorem other_circuits_cell_noop_at_relay (L : AeadLaws A) (n : Node) (src cid :
 /-! ## id re-use over time: an extension completes only for the peer that asked for it -/
 
 /-- `on_created` on a pending extension `rq`: if it changes the relay table or the exit table at all, the exit entry
-    found under `rq.fromId` belongs to the peer the extension was requested by (repaired code; before the repair any
-    exit entry under that id was converted, whoever it belonged to).  Residual: the SAME peer re-creating the id while
-    its own old extension is pending is not distinguished. -/
-theorem extension_completes_only_for_requesting_peer (n : Node) (cid ident key authPk dhRef : Nat) (ch : Choice)
+    found under `rq.fromId` is the very entry the extension was requested on — same peer, same address, same
+    session key (the code compares the hop's Peer object by identity; a session key is drawn per join_circuit, so
+    equality of the recorded hop stands for object identity).  A peer that re-creates the id, even one that claims
+    the previous owner's public key in its CREATE, gets a different entry and is left alone. -/
+theorem extension_completes_only_on_the_requesting_entry (n : Node) (cid ident key authPk dhRef : Nat) (ch : Choice)
     (rq : CreateReq) (rest : List CreateReq) (hpop : popCreate n.creates ident = some (rq, rest)) :
     let r := onCreated A n cid ident key authPk dhRef ch
     (r.1.relays = n.relays ∧ r.1.exits = n.exits ∧ r.2 = []) ∨
-    (∃ e, get n.exits rq.fromId = some e ∧ e.hop.peer = rq.peer.peer) := by
+    (∃ e, get n.exits rq.fromId = some e ∧ e.hop = rq.peer) := by
   unfold onCreated
   simp only [hpop]
   cases he : get n.exits rq.fromId with
   | none => exact Or.inl ⟨rfl, rfl, rfl⟩
   | some e =>
-    by_cases hpeer : e.hop.peer = rq.peer.peer
+    by_cases hpeer : e.hop = rq.peer
     · exact Or.inr ⟨e, rfl, hpeer⟩
     · left
       simp only [ne_eq, hpeer, not_false_eq_true, if_true]
@@ -703,7 +704,7 @@ theorem extension_touches_only_its_ids (n : Node) (cid ident key authPk dhRef : 
   cases he : get n.exits rq.fromId with
   | none => exact ⟨fun _ _ _ => rfl, fun _ _ => rfl⟩
   | some e =>
-    by_cases hpeer : e.hop.peer = rq.peer.peer
+    by_cases hpeer : e.hop = rq.peer
     · simp only [ne_eq, hpeer, not_true_eq_false, if_false]
       split
       · exact ⟨fun _ _ _ => rfl, fun _ _ => rfl⟩
@@ -729,7 +730,7 @@ theorem extension_never_overwrites_a_used_id (n : Node) (cid ident key authPk dh
   | none => exact ⟨rfl, rfl, rfl, rfl⟩
   | some e =>
     have h' : ({ n with creates := rest } : Node).inUse rq.toId = true := huse
-    by_cases hpeer : e.hop.peer = rq.peer.peer
+    by_cases hpeer : e.hop = rq.peer
     · simp only [ne_eq, hpeer, not_true_eq_false, if_false, h', if_true]
       exact ⟨trivial, trivial, trivial, trivial⟩
     · simp only [ne_eq, hpeer, not_false_eq_true, if_true]
@@ -752,11 +753,19 @@ theorem partial_expiry_reopens_id :
     revert this
     decide
 
-/-- … but the late CREATED of the old extension (requested for peer 2) leaves the newcomer's exit entry (peer 8)
-    alone: it stays an exit socket with its own key, no relay entry appears, nothing is sent -/
+/-- … but the late CREATED of the old extension (requested on the hop ⟨peer 2, address 2⟩) leaves the newcomer's exit
+    entry (peer 8) alone: it stays an exit socket with its own key, no relay entry appears, nothing is sent … -/
 theorem late_created_spares_the_new_owner :
     let n1 := (onCreate sym (expireCreated exP 700) 8 700 5 8 0).1
     let r := onCreated sym n1 900 5 4444 4 0 {}
+    r.1.relays = [] ∧ get r.1.exits 700 = get n1.exits 700 ∧ r.2 = [] := by decide
+
+/-- … and the same holds for an impostor: the CREATE comes from address 8 but claims peer 2's public key (the key in a
+    CREATE is self-declared).  Comparing public keys would let it pass; the entry is a different one. -/
+theorem late_created_spares_an_impostor_claiming_the_old_key :
+    let n1 := (onCreate sym (expireCreated exP 700) 8 700 5 2 0).1
+    let r := onCreated sym n1 900 5 4444 4 0 {}
+    (get n1.exits 700).map (fun e => e.hop.peer) = some 2 ∧
     r.1.relays = [] ∧ get r.1.exits 700 = get n1.exits 700 ∧ r.2 = [] := by decide
 
 /-! ## any number of third-party events, in any order -/
